@@ -78,8 +78,13 @@ def nsv_no_x_old(values):
     return nsv_no_x(values, None)
 
 
-VALIDATORS = {'v_not1': v_not1, 'nsv_no_x': nsv_no_x, 'v_short': v_short, 'v_not1_old': v_not1_old, 'nsv_no_x_old': nsv_no_x_old}
-MODEL_VALIDATORS = {'v_not1': v_not1, 'nsv_no_x': nsv_no_x, 'v_short': v_short, 'v_not1_old': v_not1, 'nsv_no_x_old': nsv_no_x}
+def nsv_some(values, port):
+    """A namespace that must hold something: objects to the empty mapping."""
+    return 'nothing given' if not values else None
+
+
+VALIDATORS = {'nsv_some': nsv_some, 'v_not1': v_not1, 'nsv_no_x': nsv_no_x, 'v_short': v_short, 'v_not1_old': v_not1_old, 'nsv_no_x_old': nsv_no_x_old}
+MODEL_VALIDATORS = {'nsv_some': nsv_some, 'v_not1': v_not1, 'nsv_no_x': nsv_no_x, 'v_short': v_short, 'v_not1_old': v_not1, 'nsv_no_x_old': nsv_no_x}
 CALLABLES = {'d7': d7, 'd_s': d_s}
 NAMES = ['a', 'ab', 'n', 'm', 'x']
 
@@ -154,6 +159,8 @@ def rand_ns(rng, depth):
         attrs['populate_defaults'] = False
     if rng.random() < 0.2:
         attrs['validator'] = 'nsv_no_x' if rng.random() < 0.6 else 'nsv_no_x_old'
+    elif rng.random() < 0.06:
+        attrs['validator'] = 'nsv_some'
     children = {}
     for name in rng.sample(NAMES, rng.randint(0, 3)):
         children[name] = rand_ns(rng, depth - 1) if depth > 0 and rng.random() < 0.4 else rand_port(rng)
